@@ -127,6 +127,18 @@ func runStream(payload []*Sx) *Sx {
 			return L(A("stream-does-not-end"))
 		}
 	}
+	// the outcome is final: further Decode calls repeat the error (or io.EOF); they never hand out policies from the rest of the input
+	for i := 0; i < 3; i++ {
+		var p cedar.Policy
+		err := dec.Decode(&p)
+		if serr != nil {
+			if err == nil || err.Error() != serr.Error() {
+				return L(L(A("whole"), whole), L(A("stream"), L(A("error-is-not-sticky"), AS(serr.Error()), AS(fmt.Sprint(err)))))
+			}
+		} else if !errors.Is(err, io.EOF) {
+			return L(L(A("whole"), whole), L(A("stream"), L(A("decode-after-eof"), AS(fmt.Sprint(err)))))
+		}
+	}
 	var stream *Sx
 	if serr != nil {
 		kind := "error"
